@@ -84,7 +84,7 @@ def eval_stmt(d, ref, ref_cache, stmt, dbname='d', timeout=30):
         return 'exec_error', {'reason': '%s: %s' % (cls, r.get('msg', '')[:300]), 'reply': r}
     approx = stmt.get('approx', False)
     eng = norm_rows(r['rows'], approx)
-    detail = {'engine_rows': r['rows'], 'cols': r.get('cols'), 'plan': r.get('plan'), 'batch_schemas': r.get('batch_schemas')}
+    detail = {'engine_rows': r['rows'], 'cols': r.get('cols'), 'plan': r.get('plan'), 'batch_schemas': r.get('batch_schemas'), 'spilled': r.get('spilled', 0)}
     if 'expect_rows' in stmt:
         ref_rows = norm_rows(stmt['expect_rows'], approx)
         if stmt.get('xref'):
@@ -113,6 +113,11 @@ def eval_stmt(d, ref, ref_cache, stmt, dbname='d', timeout=30):
         if compare_result(eng, norm_rows(arows, approx), stmt.get('order'), stmt.get('limit'), stmt.get('offset')) is None:
             detail['known'] = kid.split('#')[0]
             return 'known:' + kid.split('#')[0], detail
+    for kid, spec in (stmt.get('alt_fns') or {}).items():
+        arows = apply_alt_fn(spec, ref_rows)
+        if arows is not None and compare_result(eng, arows, stmt.get('order'), stmt.get('limit'), stmt.get('offset')) is None:
+            detail['known'] = kid.split('#')[0]
+            return 'known:' + kid.split('#')[0], detail
     for kid, asql in (stmt.get('alts') or {}).items():
         try:
             if asql not in ref_cache:
@@ -124,6 +129,16 @@ def eval_stmt(d, ref, ref_cache, stmt, dbname='d', timeout=30):
             detail['known'] = kid
             return 'known:' + kid, detail
     return 'violation', detail
+
+
+def apply_alt_fn(spec, ref_rows):
+    """named deviations of the reference answer (known findings), applied to the normalized reference rows."""
+    name = spec[0]
+    if name == 'drop_empty_null_group':
+        # the group whose key is NULL in every group column is lost when every aggregate of it is 0 / NULL
+        ng = spec[1]
+        return [r for r in ref_rows if not (all(v is None for v in r[:ng]) and all(v in (None, 0) for v in r[ng:]))]
+    return None
 
 
 def _work(args):
@@ -174,6 +189,12 @@ def _work(args):
                                                       'stmt': s, 'status': st, 'detail': detail})
                         continue
                     cnt(st)
+                    if detail.get('plan'):
+                        pk = '>'.join(detail['plan'])
+                        out.setdefault('plans', {})
+                        out['plans'][pk] = out['plans'].get(pk, 0) + 1
+                    if detail.get('spilled'):
+                        cnt('spilled_runs')
                     if st == 'agree':
                         nt = s.get('nontrivial')
                         if nt is None:
@@ -229,6 +250,9 @@ def run(report, units, configs=None, workers=None, timeout=30, chunk=None):
                 report.add_sample(s)
             for e in out['errors']:
                 report.machinery(e)
+            for pk, n in out.get('plans', {}).items():
+                pl = report.extra.setdefault('plans_observed', {})
+                pl[pk] = pl.get(pk, 0) + n
         pool.close()
         pool.join()
 
